@@ -2,7 +2,8 @@
 # Rewrites DESIGN.md §13.2 (table of the behaviour-preserving refactorings kept under /verif/benign).
 import os, re
 rows=[]
-for d in sorted(os.listdir('/verif/benign'), key=lambda x:(x.split('-')[0], x)):
+openids={l.split()[0]:l.split()[1] for l in open('/verif/benign/OPEN.txt') if l.strip() and not l.startswith('#')}
+for d in sorted([x for x in os.listdir('/verif/benign') if os.path.isdir(os.path.join('/verif/benign',x))], key=lambda x:(x.split('-')[0], x)):
     notes=os.path.join('/verif/benign',d,'notes.md')
     kind=''
     if os.path.exists(notes):
@@ -14,13 +15,14 @@ for d in sorted(os.listdir('/verif/benign'), key=lambda x:(x.split('-')[0], x)):
                 break
     diff=open(os.path.join('/verif/benign',d,'patch.diff')).read()
     files=sorted(set(re.findall(r'^\+\+\+ b/(\S+)',diff,re.M)))
-    rows.append(f"| {d} | {', '.join(files)[:90]} | {kind[:150].replace('|','/')} |")
-table="| id | files | transformation (from the author's notes) |\n|---|---|---|\n"+"\n".join(rows)+"\n"
+    status = 'quiet' if d not in openids else 'OPEN: false alarm by '+openids[d]
+    rows.append(f"| {d} | {', '.join(files)[:90]} | {kind[:150].replace('|','/')} | {status} |")
+table="| id | files | transformation (from the author's notes) | checks |\n|---|---|---|---|\n"+"\n".join(rows)+"\n"
 p='/verif/DESIGN.md'
 s=open(p).read()
 head="### 13.2 Behaviour-preserving refactorings kept as a false-alarm corpus\n"
 intro=("\n`./benign_regress.sh [prefix]` applies each to a scratch worktree of `/repo` and runs every property's check on it; "
-       "the expected result is silence (`N refactorings, 0 with false alarms`). Written by independent sub-agents who saw one property's text and their own worktree (see §11.2).\n\n")
+       "the expected result is silence (`N refactorings, 0 with false alarms`; the third-round patches listed in `benign/OPEN.txt` are reported as OPEN, see §11.2). Written by independent sub-agents who saw one property's text and their own worktree (see §11.2).\n\n")
 if head in s:
     s=s[:s.index(head)]
 s=s.rstrip('\n')+"\n\n"+head+intro+table
